@@ -196,6 +196,21 @@ pub fn run(rep: &Report) {
         issue_and_collect(&wt[*ti], s, &cfgs[0], &st, l);
         issue_and_collect(&wt[*ti], s, &cfgs[2], &st, l);
     });
+    // equal siblings
+    let es = equal_sibling_trees();
+    let mut items5 = vec![];
+    for (ti, t) in es.iter().enumerate() {
+        for s in pipeline::all_strategies(t) {
+            items5.push((ti, s));
+        }
+    }
+    par_for(rep, items5.len(), |i, l| {
+        let (ti, s) = &items5[i];
+        for cfg in &cfgs {
+            issue_and_collect(&es[*ti], s, cfg, &st, l);
+        }
+    });
+    rep.scope_done(json!({"scope": "equal siblings: identical elements / members side by side x all strategies x 3 cfgs", "tree_x_strategy": items5.len()}));
     // every member / element count 0..40 and around 64, 128, 256
     let cs = count_sweep_trees();
     let mut items4 = vec![];
